@@ -112,7 +112,7 @@ def make_overlap_problem(rng, k):
 
 
 def make_runs(run):
-    n = 48 if run.tier == "quick" else 360
+    n = 72 if run.tier == "quick" else 360
     runs = []
     k = 0
     while len(runs) < n and k < 30 * n:
